@@ -265,6 +265,13 @@ def B3_assign_pipeline(repo, clause):
                                          and [const_value(e.slice) if isinstance(e, ast.Subscript) else None for e in l.slice.args[0].elts] == [1, 2] for l in look)
             obs.append(Ob("B3", clause, fn, look[0] if look else fn.node, ok2, "multiplicity lookup uses the same order-free key on the term's atoms [1] and [2]", slot="dihedral:multiplicity-lookup"))
     obs.append(Ob("B3", clause, fn, cnt[0] if cnt else fn.node, ok, detail, slot="dihedral:multiplicity"))
+    excl = calls_named(fn, "delete_if_all_in_set")
+    if cnt and excl:
+        est = fn.stmt_of(excl[0])
+        before = fn.cfg.reaches(cnt[0], est) and not fn.cfg.reaches(est, cnt[0])
+        obs.append(Ob("B3", clause, fn, cnt[0], before,
+                      "torsions per central bond are counted over ALL torsions of the structure, i.e. before the exclusion filter removes some of them "
+                      "(the multiplicity M is a property of the bond, not of the exclusion set)", slot="dihedral:multiplicity-before-exclusion"))
     # None removal: reversed index loop removes from the four parallel structures
     loops = [n for n in fn.own_nodes() if isinstance(n, ast.For) and isinstance(n.iter, ast.Call) and call_name(n.iter) == "reversed"]
     ok = False
@@ -345,3 +352,50 @@ def is_none_test_any(x):
         if isinstance(x.ops[0], ast.Is):
             return "is"
     return None
+
+
+def B5_bond_order_arms(repo, clause):
+    """Sibling arms of guess_bond_order that test `types <= {one hybridisation class}` must agree in their other conjuncts."""
+    fn = repo.fn("guess_bond_order")
+    obs = []
+    arms = []
+    for n in fn.own_nodes():
+        if isinstance(n, ast.If):
+            from .common import strip_not
+            tt, _pol = strip_not(n.test, True)
+            conj = tt.values if isinstance(tt, ast.BoolOp) and isinstance(tt.op, ast.And) else [tt]
+            sub = [c for c in conj if isinstance(c, ast.Compare) and len(c.ops) == 1 and isinstance(c.ops[0], ast.LtE) and isinstance(c.comparators[0], ast.Set)]
+            if len(sub) == 1:
+                rest = sorted(repr(nf(c)) for c in conj if c is not sub[0])
+                arms.append((n, sub[0], rest))
+    floor("B5", "hybridisation-class arms of guess_bond_order", len(arms), 2)
+    ref = arms[0][2]
+    for n, sub, rest in arms:
+        ok = rest == ref and bool(rest)
+        obs.append(Ob("B5", clause, fn, n, ok,
+                      "arm `%s`: the class test is combined with %s; sibling arms combine it with %s (same-type pairs only)" % (
+                          ast.unparse(n.test)[:80], rest or "NOTHING", ref), slot="arm:%s" % ",".join(sorted(str(const_value(x)) for x in sub.comparators[0].elts))))
+    return obs
+
+
+def B6_uff_key_prefix(repo, clause, funcs=None):
+    """Every lookup of UFF keys by element passes the element padded to the two-character element field."""
+    obs = []
+    n = 0
+    for fn in repo.all_fns():
+        if funcs is not None and fn.qualname not in funcs:
+            continue
+        for c in calls_named(fn, "uff_key_starts_with"):
+            if not c.args:
+                continue
+            n += 1
+            e = expand(fn, c.args[0])
+            txt = ast.unparse(e)
+            padded = any(isinstance(x, ast.Call) and isinstance(x.func, ast.Attribute) and x.func.attr == "ljust" and len(x.args) == 2
+                         and const_value(x.args[0]) == 2 and const_value(x.args[1]) == "_" for x in ast.walk(e))
+            obs.append(Ob("B6", clause, fn, c, padded,
+                          "UFF key prefix `%s` %s: an unpadded one-letter element (S, B, I, ...) also matches the keys of two-letter elements (Si, Be, In, ...)" % (
+                              txt[:60], "is padded with '_' to two characters" if padded else "is NOT padded to the two-character element field"),
+                          slot="prefix:%s" % fn.qualname))
+    floor("B6", "uff_key_starts_with call sites", n, 1 if funcs else 3)
+    return obs
